@@ -27,7 +27,7 @@ ASSUMPTIONS = [
 ]
 BUDGET = {
     "quick": {"examples": 200, "wall_s": 100, "shards": 4},
-    "thorough": {"examples": 2000, "wall_s": 1200, "shards": 16},
+    "thorough": {"examples": 6000, "wall_s": 1500, "shards": 16},
 }
 
 
